@@ -22,6 +22,7 @@ import (
 	"fmt"
 	"os"
 	"path/filepath"
+	"regexp"
 	"sort"
 	"strconv"
 	"strings"
@@ -106,15 +107,26 @@ func (r *tkEvents) take() []string {
 }
 
 type tkWorld struct {
-	l     *spine.DeviceLocal
-	cl    api.FeatureLocalInterface
-	srv   map[string]*model.FeatureAddressType // local server feature per local entity "1".."4"
-	rds   map[int]api.DeviceRemoteInterface    // latest device object per connection number
-	dev   map[int]int                          // device address number announced by connection k
-	alive map[int]bool
-	ctr   map[int]uint64
-	ev    *tkEvents
-	base  int
+	l          *spine.DeviceLocal
+	cl         api.FeatureLocalInterface
+	srv        map[string]*model.FeatureAddressType // local server feature per local entity "1".."4"
+	rds        map[int]api.DeviceRemoteInterface    // latest device object per connection number
+	dev        map[int]int                          // device address number announced by connection k
+	alive      map[int]bool
+	ctr        map[int]uint64
+	ev         *tkEvents
+	base       int
+	wr         map[int]*h.W   // writer of the current connection k
+	old        []tkOldWriter  // writers of removed connections
+	vals       map[string]int // canonical JSON of a written limit list -> value id
+	valN       int
+	last       map[string]int // SPEC: value id of the last write the SPEC accepted, per local server feature address
+	everShared bool           // two connected devices announced one address at some point of this history
+}
+
+type tkOldWriter struct {
+	k int
+	w *h.W
 }
 
 func tkDev(d int) string { return fmt.Sprintf("dev%d", d) }
@@ -151,7 +163,8 @@ func tkTree(dev string, state *model.NetworkManagementStateChangeType, ents []st
 }
 
 func newTkWorld(ev *tkEvents, base int) *tkWorld {
-	w := &tkWorld{srv: map[string]*model.FeatureAddressType{}, rds: map[int]api.DeviceRemoteInterface{}, dev: map[int]int{}, alive: map[int]bool{}, ctr: map[int]uint64{}, ev: ev, base: base}
+	w := &tkWorld{srv: map[string]*model.FeatureAddressType{}, rds: map[int]api.DeviceRemoteInterface{}, dev: map[int]int{}, alive: map[int]bool{}, ctr: map[int]uint64{}, ev: ev, base: base,
+		wr: map[int]*h.W{}, vals: map[string]int{}, last: map[string]int{}}
 	l := spine.NewDeviceLocal("b", "m", "s", "c", "HEMS", model.DeviceTypeTypeEnergyManagementSystem, model.NetworkManagementFeatureSetTypeSmart)
 	for i := 1; i <= 4; i++ {
 		e := spine.NewEntityLocal(l, model.EntityTypeTypeCEM, spine.NewAddressEntityType([]uint{uint(i)}), 0)
@@ -173,7 +186,8 @@ func (w *tkWorld) inject(k int, d model.DatagramType) {
 }
 
 func (w *tkWorld) connect(k, d int) {
-	w.l.SetupRemoteDevice(tkSki(k), &h.W{})
+	w.wr[k] = &h.W{}
+	w.l.SetupRemoteDevice(tkSki(k), w.wr[k])
 	w.rds[k] = w.l.RemoteDeviceForSki(tkSki(k))
 	w.dev[k], w.alive[k], w.ctr[k] = d, true, 100
 	cl := model.CmdClassifierTypeReply
@@ -315,7 +329,10 @@ func tkWithout(l []string, drop func(string) bool) (kept, gone []string) {
 	return
 }
 
-type tkStats struct{ grants, grantOk, drops, dropsNontrivial, sharedOps, ops int }
+type tkStats struct {
+	grants, grantOk, drops, dropsNontrivial, sharedOps, ops int
+	served, servedWriteOk, servedNotified, servedSubOk      int
+}
 
 // runTkHistory executes ops on a fresh world, compares with the driver (nil: monitor only), judges the SPEC.
 func runTkHistory(r *h.Report, d *h.Driver, ev *tkEvents, base int, facts string, ops []string, st *tkStats) {
@@ -340,9 +357,12 @@ func runTkHistory(r *h.Report, d *h.Driver, ev *tkEvents, base int, facts string
 		if a := d.Ask("facts " + facts); a != "facts" {
 			panic("drv_tdk facts: " + a)
 		}
+		if a := d.Ask(w.ctxLine()); a != "ctx" {
+			panic("drv_tdk ctx: " + a)
+		}
 	}
 	var done []string
-	for _, op := range ops {
+	for opIdx, op := range ops {
 		f := strings.Fields(op)
 		if len(f) == 0 {
 			continue
@@ -352,6 +372,7 @@ func runTkHistory(r *h.Report, d *h.Driver, ev *tkEvents, base int, facts string
 		st.ops++
 		if w.shared() {
 			st.sharedOps++
+			w.everShared = true
 		}
 		var impl, mdl string
 		switch f[0] {
@@ -453,6 +474,10 @@ func runTkHistory(r *h.Report, d *h.Driver, ev *tkEvents, base int, facts string
 			ev.take()
 			if f[0] == "drop" {
 				w.l.RemoveRemoteDeviceConnection(tkSki(k))
+				if w.alive[k] && w.wr[k] != nil {
+					w.old = append(w.old, tkOldWriter{k, w.wr[k]})
+					delete(w.wr, k)
+				}
 				w.alive[k] = false
 			} else {
 				removed := model.NetworkManagementStateChangeTypeRemoved
@@ -561,25 +586,254 @@ func runTkHistory(r *h.Report, d *h.Driver, ev *tkEvents, base int, facts string
 			continue
 		}
 		r.Eval(f[0], "")
-		if d == nil {
-			continue
+		if d != nil {
+			if impl != mdl {
+				mismatch(done, impl, mdl, "answer of "+op)
+			} else {
+				s1, s2, s3, s4, s5 := w.observe()
+				if is, ms := tkState(s1, s2, s3, s4, s5), d.Ask("state"); is != ms {
+					mismatch(done, is, ms, "state after "+op)
+				} else if ir, mr := strings.Join(w.resolve(), " "), strings.Join(tkModelResolve(d), " "); ir != mr {
+					mismatch(done, ir, mr, "resolution after "+op)
+				}
+			}
 		}
-		if impl != mdl {
-			mismatch(done, impl, mdl, "answer of "+op)
-			continue
+		if w.shared() {
+			w.everShared = true
 		}
-		s1, s2, s3, s4, s5 := w.observe()
-		if is, ms := tkState(s1, s2, s3, s4, s5), d.Ask("state"); is != ms {
-			mismatch(done, is, ms, "state after "+op)
-			continue
-		}
-		if ir, mr := strings.Join(w.resolve(), " "), strings.Join(tkModelResolve(d), " "); ir != mr {
-			mismatch(done, ir, mr, "resolution after "+op)
-			continue
+		// (worlds in which two connections announce(d) one device address are outside the assumption AND outside the
+		// composed model: the write gate compares the client feature's ADDRESS, so a sharer passes the other's binding)
+		if (f[0] == "drop" || f[0] == "dropent") && !w.everShared {
+			// "every other peer continues to be served": requests of every other connection, answered by the real stack and
+			// by the composed model Spine.TdS (world of the TdK state + dispatch model); SPEC judged on the observed registries
+			w.serveOthers(r, func() *h.Driver { return d }, mismatch, atoi(1), opIdx, done, st)
+			if d != nil {
+				s1, s2, s3, s4, s5 := w.observe()
+				if is, ms := tkState(s1, s2, s3, s4, s5), d.Ask("state"); is != ms {
+					mismatch(done, is, ms, "state after the requests of the other peers that followed "+op)
+				}
+			}
 		}
 	}
 	if agreed {
 		r.Traces++
+	}
+}
+
+// ---------- "continues to be served": requests of the other peers after a teardown
+
+var tkAnyErr = regexp.MustCompile(`(>result:\d+:)[1-9]\d*:`)
+
+func (w *tkWorld) ctxLine() string {
+	dispInit()
+	var sf []string
+	for i := 1; i <= 4; i++ {
+		sf = append(sf, strconv.Itoa(int(*w.srv[strconv.Itoa(i)].Feature)))
+	}
+	return fmt.Sprintf("ctx %d %d %s %s %d", dispFnID[dispFnLimit], dispTypeID[model.FeatureTypeTypeLoadControl],
+		dispCSV(dispFds(model.FeatureTypeTypeLoadControl)), strings.Join(sf, " "), *w.cl.Address().Feature)
+}
+
+func (w *tkWorld) drain() {
+	for _, x := range w.wr {
+		x.Take()
+	}
+	for _, o := range w.old {
+		o.w.Take()
+	}
+}
+
+// valOf: the value id of a limit-list payload (0 = never written; -1 = a list no write of this history carried)
+func (w *tkWorld) valOf(payload string) int {
+	var got model.LoadControlLimitListDataType
+	if err := json.Unmarshal([]byte(payload), &got); err != nil || len(got.LoadControlLimitData) == 0 {
+		return 0
+	}
+	b, _ := json.Marshal(got)
+	if v, ok := w.vals[string(b)]; ok {
+		return v
+	}
+	return -1
+}
+
+// outputs: everything the stack wrote since the last drain, per connection, in the format of drv_tdk's showOuts;
+// toOld: what was written to writers of removed connections
+func (w *tkWorld) outputs() (all []string, toOld []string) {
+	show := func(k int, m []byte) string {
+		o := dispParseOut(m)
+		switch o.kind {
+		case "reply":
+			return fmt.Sprintf("%d>reply:%s:%d:%s:%s:v%d", k, o.refS(), o.fn, h.AddrS(o.src), h.AddrS(o.dst), w.valOf(o.payload))
+		case "result":
+			return fmt.Sprintf("%d>result:%s:%d:%s:%s", k, o.refS(), o.err, h.AddrS(o.src), h.AddrS(o.dst))
+		case "notify":
+			return fmt.Sprintf("%d>notify:%d:%s:%s:v%d", k, o.fn, h.AddrS(o.src), h.AddrS(o.dst), w.valOf(o.payload))
+		case "readReq":
+			return fmt.Sprintf("%d>readReq:%d:%s:%s", k, o.fn, h.AddrS(o.src), h.AddrS(o.dst))
+		}
+		return fmt.Sprintf("%d>other:%s", k, o.kind)
+	}
+	for k := 1; k <= tkNConn; k++ {
+		if x := w.wr[k]; x != nil {
+			for _, m := range x.Take() {
+				all = append(all, show(k, m))
+			}
+		}
+	}
+	for _, o := range w.old {
+		for _, m := range o.w.Take() {
+			all = append(all, show(o.k, m))
+			toOld = append(toOld, show(o.k, m))
+		}
+	}
+	return
+}
+
+// serveOthers: after a teardown about connection k, every other connected peer q sends a read, a write and a
+// subscription request (as real datagrams through HandleSpineMesssage). Compared with the composed model (drv_tdk `dg`
+// / `call`); SPEC (model-free, distinct device addresses): the read is answered with one reply carrying the value of the
+// last accepted write, the write is accepted iff the OBSERVED bindings hold (server feature <- q's client feature) and
+// then notifies exactly the OBSERVED subscribers of that server feature, the subscription request is granted iff the
+// OBSERVED subscriptions do not hold it yet; nothing is written to a removed connection.
+func (w *tkWorld) serveOthers(r *h.Report, drv func() *h.Driver, mismatch func([]string, string, string, string), k, opIdx int, done []string, st *tkStats) {
+	dispInit()
+	fn := dispFnID[dispFnLimit]
+	typ := dispTypeID[model.FeatureTypeTypeLoadControl]
+	shared := false
+	for q := 1; q <= tkNConn; q++ {
+		if q == k || !w.alive[q] {
+			continue
+		}
+		var ents []string
+		for _, e := range tkBookEnts {
+			if regexpEntityKnown(w, q, e) {
+				ents = append(ents, e)
+			}
+		}
+		if len(ents) == 0 {
+			continue
+		}
+		dev := tkDev(w.dev[q])
+		ent := ents[(opIdx+q)%len(ents)]
+		cf := uint(1 + (opIdx+q)%2)
+		se := strconv.Itoa(1 + (opIdx+q)%4)
+		_, preB, _, _, _ := w.observe()
+		// prefer a write from a client feature of q that the observed bindings authorise (two times out of three)
+		wEnt, wCf, wSe := ent, cf, se
+		if opIdx%3 != 0 {
+			for _, b := range preB {
+				i := strings.Index(b, "<-")
+				cl := strings.Split(b[i+2:], ":") // q, dev, ent/feat
+				if len(cl) == 3 && cl[0] == strconv.Itoa(q) {
+					ef := strings.Split(cl[2], "/")
+					n, _ := strconv.Atoi(ef[1])
+					wEnt, wCf, wSe = ef[0], uint(n), strings.Split(b[:i], "/")[0]
+					break
+				}
+			}
+		}
+		type req struct {
+			kind, ent string
+			cf        uint
+			se        string
+		}
+		for _, rq := range []req{{"write", wEnt, wCf, wSe}, {"read", ent, cf, wSe}, {"sub", ent, cf, se}} {
+			srv := w.srv[rq.se]
+			cAddr := h.FA(dev, regParseEnt(rq.ent), rq.cf)
+			w.ctr[q]++
+			ctr := w.ctr[q]
+			preS, preB, _, _, _ := w.observe()
+			w.drain()
+			w.ev.take()
+			var line string
+			v := 0
+			ack := true
+			switch rq.kind {
+			case "read", "write":
+				cls := model.CmdClassifierTypeRead
+				cmd := dispCmd(fn, 0, false)
+				if rq.kind == "write" {
+					cls = model.CmdClassifierTypeWrite
+					w.valN++
+					v = w.valN
+					cmd = dispCmd(fn, v, false)
+					b, _ := json.Marshal(cmd.LoadControlLimitListData)
+					w.vals[string(b)] = v
+				}
+				hd := model.HeaderType{AddressSource: cAddr, AddressDestination: h.FA("HEMS", regParseEnt(rq.se), uint(*srv.Feature)),
+					MsgCounter: util.Ptr(model.MsgCounterType(ctr)), CmdClassifier: &cls}
+				if rq.kind == "write" {
+					hd.AckRequest = &ack
+				}
+				w.inject(q, model.DatagramType{Header: hd, Payload: model.PayloadType{Cmd: []model.CmdType{cmd}}})
+				line = fmt.Sprintf("dg %d %s %s %d %s %d %d %d %d %d", q, rq.kind, rq.ent, rq.cf, rq.se, *srv.Feature, fn, ctr, h.B2i(rq.kind == "write"), v)
+			case "sub":
+				cls := model.CmdClassifierTypeCall
+				cmd := model.CmdType{NodeManagementSubscriptionRequestCall: spine.NewNodeManagementSubscriptionRequestCallType(cAddr, h.FA("HEMS", regParseEnt(rq.se), uint(*srv.Feature)), model.FeatureTypeTypeLoadControl)}
+				w.inject(q, model.DatagramType{Header: model.HeaderType{AddressSource: h.FA(dev, []uint{0}, 0), AddressDestination: h.FA("HEMS", []uint{0}, 0),
+					MsgCounter: util.Ptr(model.MsgCounterType(ctr)), CmdClassifier: &cls, AckRequest: &ack}, Payload: model.PayloadType{Cmd: []model.CmdType{cmd}}})
+				line = fmt.Sprintf("call %d sub %s %d %s %d %d %d 1", q, rq.ent, rq.cf, rq.se, *srv.Feature, typ, ctr)
+			}
+			h.Settle(w.base)
+			w.ev.take()
+			outs, toOld := w.outputs()
+			impl := tkSet(outs)
+			st.served++
+			r.Eval("serve-"+rq.kind, "")
+			what := fmt.Sprintf("%s of connection %d (client %s/%d, server %s) after the teardown about connection %d", rq.kind, q, rq.ent, rq.cf, h.AddrS(srv), k)
+			if len(toOld) > 0 {
+				r.SpecFail("C10/keys-datagram-to-removed-connection", done, fmt.Sprintf("%s: written to a removed connection: %s", what, tkSet(toOld)))
+			}
+			if !shared {
+				// ---- SPEC from the observed registries alone
+				client := fmt.Sprintf("%d:%s:%s/%d", q, tkNum(dev, "dev"), rq.ent, rq.cf)
+				entry := h.AddrS(srv) + "<-" + client
+				has := func(l []string) bool {
+					for _, x := range l {
+						if x == entry {
+							return true
+						}
+					}
+					return false
+				}
+				var exp []string
+				switch rq.kind {
+				case "read":
+					exp = []string{fmt.Sprintf("%d>reply:%d:%d:%s:%s/%d:v%d", q, ctr, fn, h.AddrS(srv), rq.ent, rq.cf, w.last[h.AddrS(srv)])}
+				case "write":
+					if has(preB) {
+						st.servedWriteOk++
+						w.last[h.AddrS(srv)] = v
+						exp = []string{fmt.Sprintf("%d>result:%d:0:%s:%s/%d", q, ctr, h.AddrS(srv), rq.ent, rq.cf)}
+						for _, x := range preS {
+							if strings.HasPrefix(x, h.AddrS(srv)+"<-") {
+								cl := strings.Split(x[strings.Index(x, "<-")+2:], ":")
+								exp = append(exp, fmt.Sprintf("%s>notify:%d:%s:%s:v%d", cl[0], fn, h.AddrS(srv), cl[2], v))
+								st.servedNotified++
+							}
+						}
+					} else {
+						exp = []string{fmt.Sprintf("%d>result:%d:1:%s:%s/%d", q, ctr, h.AddrS(srv), rq.ent, rq.cf)}
+					}
+				case "sub":
+					e := 1
+					if !has(preS) {
+						e = 0
+						st.servedSubOk++
+					}
+					exp = []string{fmt.Sprintf("%d>result:%d:%d:0/0:0/0", q, ctr, e)}
+				}
+				// the SPEC does not prescribe WHICH error number refuses
+				if tkAnyErr.ReplaceAllString(impl, "${1}1:") != tkSet(exp) {
+					r.SpecFail("C10/keys-other-peer-not-served", done, fmt.Sprintf("%s: the stack wrote %s, expected %s", what, impl, tkSet(exp)))
+				}
+			}
+			if d := drv(); d != nil {
+				if mdl := d.Ask(line); mdl != impl {
+					mismatch(done, impl, mdl, "outputs for the "+what+" ("+line+")")
+				}
+			}
+		}
 	}
 }
 
@@ -756,6 +1010,8 @@ func TestTeardownKeys(t *testing.T) {
 		r.Floor("granted share of subscription / binding requests", st.grantOk, st.grants, 0.45)
 		r.Floor("teardowns that removed entries while entries of others stayed (distinct addresses)", st.dropsNontrivial, st.drops, 0.10)
 		r.Floor("ops in worlds with a shared device address", st.sharedOps, st.ops, 0.03)
+		r.Floor("requests of other peers after a teardown: writes the observed bindings authorise (accepted)", st.servedWriteOk, st.served, 0.03)
+		r.Floor("requests of other peers after a teardown: subscription requests granted", st.servedSubOk, st.served, 0.05)
 	}
 	rerun := func(q *h.Report, ops []string) { runTkHistory(q, d, ev, base, facts, ops, &tkStats{}) }
 	regShrinkReport(r, rerun, map[string]bool{}, false)
